@@ -2,7 +2,7 @@
    token stream the dialect's lexer reads back, a boolean decider applied to the implementation's output,
    and the exact model-vs-implementation comparison. *)
 From Coq Require Import List NArith Bool Arith Lia.
-From AV Require Export Base.ListSet Model.Quote Model.C14Reserved Model.Visitors.
+From AV Require Export Base.ListSet Model.Quote Model.C14Reserved Model.Visitors Model.C14Ops.
 Import ListNotations.
 Open Scope N_scope.
 
@@ -80,13 +80,16 @@ Definition check_stmt (i:c14_in) (o:c14_out) : bool :=
 Inductive c14_case :=
 | CaseStmt (d:dialect) (c:construct) (e:env)
 | CaseQuote (d:dialect) (s:str)            (* dialect.identifier_preparer.quote(s) *)
-| CaseParams (d:dialect).                  (* the IdentifierPreparer parameters themselves *)
+| CaseParams (d:dialect)                   (* the IdentifierPreparer parameters themselves *)
+| CaseOp (d:dialect) (o:op) (n:names) (opqs:list (list str)).
+   (* a real Operations call in as_sql mode; opqs = the opaque texts of each construct it hands to _exec, in order *)
 
 Inductive c14_obs :=
 | ObsStmt (o:c14_out)
 | ObsQuote (r:option str)                  (* None = IndexError *)
 | ObsParams (op cl:N) (dblpct:bool) (reserved:list str) (illegal_initial:list N)
-            (legal_rs changing_rs space_rs : list (N * N)).
+            (legal_rs changing_rs space_rs : list (N * N))
+| ObsOp (steps:list ostep) (raised:option c14_err).
    (* maximal runs of: code points matching legal_characters; those of them changed by str.lower(); str.isspace() ones *)
 
 Definition ranges_eqb (a b:list (N * N)) : bool :=
@@ -95,11 +98,17 @@ Definition ranges_eqb (a b:list (N * N)) : bool :=
 (* wire compression only: the as_sql text is given as (length of its common prefix with the compiled text, the rest) *)
 Definition out_sql_pre (compiled:str) (k:nat) (suffix:str) : c14_out := OutSql compiled (firstn k compiled ++ suffix).
 
+Definition err_eqb (a b:c14_err) : bool :=
+  match a, b with
+  | EIndex, EIndex | ENotImplemented, ENotImplemented | ECompile, ECompile | EAssert, EAssert
+  | ECommand, ECommand | EOther, EOther => true
+  | _, _ => false
+  end.
+
 Definition out_eqb (a b:c14_out) : bool :=
   match a, b with
   | OutSql x y, OutSql x' y' => str_eqb x x' && str_eqb y y'
-  | OutErr EIndex, OutErr EIndex | OutErr ENotImplemented, OutErr ENotImplemented
-  | OutErr ECompile, OutErr ECompile | OutErr EAssert, OutErr EAssert | OutErr EOther, OutErr EOther => true
+  | OutErr x, OutErr y => err_eqb x y
   | _, _ => false
   end.
 
@@ -110,6 +119,31 @@ Definition opt_str_eqb (a b:option str) : bool :=
   | _, _ => false
   end.
 
+Definition construct_eqb (a b:construct) : bool :=
+  match a, b with
+  | CRenameTable, CRenameTable | CDropColumn, CDropColumn | CColumnType, CColumnType | CColumnName, CColumnName
+  | CComputedDefault, CComputedDefault | CIdentityDrop, CIdentityDrop | CIdentityAdd, CIdentityAdd
+  | CMssqlDropConstraint, CMssqlDropConstraint | CMssqlDropFK, CMssqlDropFK => true
+  | CAddColumn x, CAddColumn y | CColumnNullable x, CColumnNullable y | CColumnDefault x, CColumnDefault y
+  | CColumnComment x, CColumnComment y | CPgColumnType x, CPgColumnType y
+  | CMysqlAlterDefault x, CMysqlAlterDefault y => Bool.eqb x y
+  | CMysqlModify a1 a2 a3 a4, CMysqlModify b1 b2 b3 b4 | CMysqlChange a1 a2 a3 a4, CMysqlChange b1 b2 b3 b4 =>
+      Bool.eqb a1 b1 && Bool.eqb a2 b2 && Bool.eqb a3 b3 && Bool.eqb a4 b4
+  | _, _ => false
+  end.
+
+(* the observed step gives "" for a name that is not an attribute of the construct: then nothing is compared *)
+Definition attr_eqb (model observed:str) : bool := match observed with [] => true | _ => str_eqb model observed end.
+
+Definition ostep_eqb (m o:ostep) : bool :=
+  construct_eqb (o_c m) (o_c o) && str_eqb (o_table m) (o_table o) && attr_eqb (o_column m) (o_column o)
+  && opt_str_eqb (schema_given (o_schema m)) (schema_given (o_schema o))
+  && attr_eqb (o_newname m) (o_newname o) && attr_eqb (o_newtable m) (o_newtable o)
+  && out_eqb (o_out m) (o_out o).
+
+Definition opt_err_eqb (a b:option c14_err) : bool :=
+  match a, b with Some x, Some y => err_eqb x y | None, None => true | _, _ => false end.
+
 Definition corr_C14 (c:c14_case) (o:c14_obs) : bool :=
   match c, o with
   | CaseStmt d k e, ObsStmt out => out_eqb (emit_stmt (d, k, e)) out
@@ -119,7 +153,27 @@ Definition corr_C14 (c:c14_case) (o:c14_obs) : bool :=
       (q_open q =? op) && (q_close q =? cl) && Bool.eqb (q_dblpct q) dbl
       && list_eqb str_eqb (q_reserved q) rs && list_eqb N.eqb (q_illegal_initial q) ii
       && ranges_eqb legal_ranges lg && ranges_eqb lower_changing_ranges ch && ranges_eqb space_ranges sp
+  | CaseOp d o n opqs, ObsOp steps raised =>
+      let '(msteps, mraised) := run_op d o n opqs in
+      list_eqb ostep_eqb msteps steps && opt_err_eqb mraised raised
   | _, _ => false
+  end.
+
+(* an operation: every statement it emitted must read back as expected for the names and the schema OF THE OPERATION,
+   whatever names the impl put into the construct *)
+Definition op_env (n:names) (opq:list str) : env :=
+  mkEnv (n_schema n) (n_table n) (n_newtable n) (n_column n) (n_newcolumn n) opq.
+
+Fixpoint check_steps (d:dialect) (n:names) (opqs:list (list str)) (steps:list ostep) : bool :=
+  match steps with
+  | [] => true
+  | s :: r => check_stmt (d, o_c s, op_env n (hd [] opqs)) (o_out s) && check_steps d n (tl opqs) r
+  end.
+
+Fixpoint steps_hold (d:dialect) (n:names) (opqs:list (list str)) (steps:list ostep) : Prop :=
+  match steps with
+  | [] => True
+  | s :: r => C14_holds (d, o_c s, op_env n (hd [] opqs)) (o_out s) /\ steps_hold d n (tl opqs) r
   end.
 
 (* the decider on the implementation's output: statements must read back as expected; a quoted identifier
@@ -130,6 +184,7 @@ Definition check_C14 (c:c14_case) (o:c14_obs) : bool :=
   | CaseQuote d s, ObsQuote (Some t) => tokens_eqb (lex (qspec_of d) t) [ident_token (qspec_of d) s]
   | CaseQuote d s, ObsQuote None => true
   | CaseParams _, ObsParams _ _ _ _ _ _ _ _ => true
+  | CaseOp d o n opqs, ObsOp steps _ => check_steps d n opqs steps
   | _, _ => false
   end.
 
@@ -233,6 +288,7 @@ Definition C14_case_holds (c:c14_case) (o:c14_obs) : Prop :=
   | CaseQuote d s, ObsQuote (Some t) => lex (qspec_of d) t = [ident_token (qspec_of d) s]
   | CaseQuote _ _, ObsQuote None => True
   | CaseParams _, ObsParams _ _ _ _ _ _ _ _ => True
+  | CaseOp d o n opqs, ObsOp steps _ => steps_hold d n opqs steps
   | _, _ => False
   end.
 
@@ -243,6 +299,7 @@ Definition model_C14 (c:c14_case) : c14_obs :=
   | CaseParams d => let q := qspec_of d in
                     ObsParams (q_open q) (q_close q) (q_dblpct q) (q_reserved q) (q_illegal_initial q)
                               legal_ranges lower_changing_ranges space_ranges
+  | CaseOp d o n opqs => let '(steps, raised) := run_op d o n opqs in ObsOp steps raised
   end.
 
 Definition inclass_C14 (c:c14_case) : bool :=
@@ -250,4 +307,5 @@ Definition inclass_C14 (c:c14_case) : bool :=
   | CaseStmt d k e => env_ok (qspec_of d) e
   | CaseQuote d s => name_ok (qspec_of d) s
   | CaseParams _ => true
+  | CaseOp d o n opqs => forallb (fun opq => env_ok (qspec_of d) (op_env n opq)) ([] :: opqs)
   end.
